@@ -63,7 +63,7 @@ func (c17Engine) Generate(seed uint64, tier string) *simrun.Case {
 		if r.Chance(1, 3) {
 			cond = int64(1 + r.Intn(5))
 		}
-		c.Ops = append(c.Ops, simrun.Op{K: k, A: []int64{int64(r.Intn(2)), int64(r.Intn(8)), int64(r.Intn(4)), cond}})
+		c.Ops = append(c.Ops, simrun.Op{K: k, A: []int64{int64(r.Intn(2)), int64(r.Intn(11)), int64(r.Intn(4)), cond}})
 	}
 	return c
 }
@@ -143,7 +143,8 @@ func c17Payload(c *simrun.Case) []defs.TXOperation {
 	return tasks
 }
 
-var c17TxCtl = []string{"COMMIT", "ROLLBACK", "BEGIN", "SAVEPOINT s1", "END", "update items set qty = 77 where id = 3; COMMIT", "commit transaction", "ROLLBACK TO s1"}
+var c17TxCtl = []string{"COMMIT", "ROLLBACK", "BEGIN", "SAVEPOINT s1", "END", "update items set qty = 77 where id = 3; COMMIT", "commit transaction", "ROLLBACK TO s1",
+	"-- note\nCOMMIT", "/* note */ COMMIT", "update items set qty = 78 where id = 3; /* x */ end"}
 
 func c17SQL(i int, v int64) string {
 	switch v % 4 {
